@@ -349,7 +349,23 @@ pub fn subset() -> &'static Subset {
 /// declaration order and numeric id order differ (identity in a third of the cases)
 const ID_P: u32 = 4093;
 fn perm_id(k: u32, a: u32, c: u32) -> u32 {
-    1 + ((k as u64 * a as u64 + c as u64) % ID_P as u64) as u32
+    let (base, stride) = ID_SCALE.with(|s| s.get());
+    base + stride * (1 + ((k as u64 * a as u64 + c as u64) % ID_P as u64) as u32)
+}
+thread_local! {
+    /// (base, stride): the permuted ids are spread over other ranges of the id space - up to 2^16,
+    /// across 2^16 and 2^17 with gaps, just below 2^16, far up - in some of the cases
+    static ID_SCALE: std::cell::Cell<(u32, u32)> = const { std::cell::Cell::new((0, 1)) };
+}
+const ID_SCALES: [(u32, u32); 12] = [(0, 1), (0, 1), (0, 1), (0, 16), (0, 32), (30_000, 9), (40_000, 23), (65_000, 1), (65_530, 1), (61_000, 2), (1 << 22, 1), (0x7fff_0000, 3)];
+/// ids the generator never declares ("unknown to the lifter"): above every declared id (5000.. and
+/// 6000.. in the unscaled case, as before)
+fn unknown_id(off: u32) -> u32 {
+    max_id() + off
+}
+fn max_id() -> u32 {
+    let (base, stride) = ID_SCALE.with(|s| s.get());
+    base + stride * (ID_P + 1)
 }
 
 struct Base {
@@ -388,7 +404,7 @@ fn base_module(cs: &mut Cs, rich: bool) -> Base {
     let bound = match cs.below(4) {
         0 => [0u32, 1, 2, 7][cs.below(4)],
         1 => cs.below(60) as u32,
-        _ => ID_P + 2,
+        _ => max_id() + 1,
     };
     let mut h = dr::ModuleHeader::new(bound);
     h.set_version(1, cs.below(7) as u8);
@@ -546,7 +562,7 @@ fn make_operands(cs: &mut Cs, gi: &GInst, assign: &str, b: &Base, fixed: bool) -
             _ => {
                 if b.values.is_empty() || (!fixed && cs.below(4) == 0) {
                     // an id unknown to the lifter
-                    5000 + if fixed { *aidx as u32 } else { cs.below(50) as u32 }
+                    unknown_id(906) + if fixed { *aidx as u32 } else { cs.below(50) as u32 }
                 } else if fixed {
                     b.values[(*aidx - 1) % b.values.len()]
                 } else {
@@ -685,7 +701,7 @@ fn add_function(cs: &mut Cs, b: &mut Base, body: &mut dyn FnMut(&mut Cs, &mut Ba
                     ops.push(Operand::IdRef(labels[cs.below(labels.len())]));
                     continue;
                 }
-                ops.push(Operand::IdRef(6000 + cs.below(40) as u32));
+                ops.push(Operand::IdRef(unknown_id(1906) + cs.below(40) as u32));
                 ops.push(Operand::IdRef(labels[cs.below(labels.len())]));
             }
             blk.instructions.push(inst(spirv::Op::Phi, Some(ty), Some(id), ops));
@@ -1040,7 +1056,26 @@ fn sub_sweep(input: &[u8], st: &mut Stats) -> R {
 }
 
 fn sub_modules(input: &[u8], st: &mut Stats) -> R {
+    ID_SCALE.with(|s| s.set((0, 1)));
+    let r = sub_modules_scaled(input, st, false);
+    ID_SCALE.with(|s| s.set((0, 1)));
+    r
+}
+
+/// `modules` with the result ids spread over other ranges of the id space (see ID_SCALES)
+fn sub_spread_ids(input: &[u8], st: &mut Stats) -> R {
+    let r = sub_modules_scaled(input, st, true);
+    ID_SCALE.with(|s| s.set((0, 1)));
+    r
+}
+
+fn sub_modules_scaled(input: &[u8], st: &mut Stats, spread: bool) -> R {
     let mut cs = Cs::new(input);
+    if spread {
+        let sc = ID_SCALES[cs.below(ID_SCALES.len())];
+        ID_SCALE.with(|s| s.set(sc));
+        st.count(&format!("id_scale_base_{}_stride_{}", sc.0, sc.1));
+    }
     let sub = subset();
     let names: Vec<(&String, &String)> = sub.ops.iter().collect();
     let mut b = base_module(&mut cs, true);
@@ -1105,6 +1140,7 @@ fn sub_modules(input: &[u8], st: &mut Stats) -> R {
 pub const SUBS: &[Sub] = &[
     Sub { name: "opcode-sweep", f: sub_sweep },
     Sub { name: "modules", f: sub_modules },
+    Sub { name: "spread-ids", f: sub_spread_ids },
 ];
 
 pub fn run(ctx: &Ctx) {
@@ -1113,6 +1149,7 @@ pub fn run(ctx: &Ctx) {
     run_regress(ctx, SUBS);
     drive_enum(ctx, &SUBS[0], sub.ops.len() as u64 * 4);
     drive_random(ctx, &SUBS[1], ctx.n(20_000, 10_000_000), 1500);
+    drive_random(ctx, &SUBS[2], ctx.n(20_000, 10_000_000), 1500);
 }
 
 pub fn finish(ctx: &Ctx) -> i32 {
